@@ -506,6 +506,8 @@ def cut_loop(eng: Engine, fn: FnCtx, lineno: int, spec: Loop, st: State, body: l
 								v1 = Ev(eng, fn, s1, Oracle([]), 'spec').eval(ast.parse(spec.decreases, mode='eval').body).term  # type: ignore[arg-type]
 								eng.oblige(fn, 'variant', s1, z3.And(v0 >= 0, v1 < v0), spec.decreases or '', lineno)
 					elif kind2 == 'break':
+						if spec.hints_break:
+							run_hints(eng, fn, se, spec.hints_break, None, sb)
 						yield ('normal', None, se)
 					else:
 						yield (kind2, payload, se)
